@@ -11,10 +11,6 @@ From IV Require Export Model.Rfc8888Recorder.   (* the constructors Add/Build/Bu
 Definition c08out := (Z * Z * list oblock)%type.
 Definition c08case := (list c08op * list c08out)%type.
 
-Definition enc_block (b : rblock) : oblock :=
-  let '(ssrc, begin, mbs) := b in
-  (ssrc, begin, map (fun m : mblock => let '(r, e, a) := m in mbz r e a) mbs).
-
 Definition oblock_eqb (a b : oblock) : bool :=
   let '(s1, b1, m1) := a in let '(s2, b2, m2) := b in
   (s1 =? s2) && (b1 =? b2) && list_eqb Z.eqb m1 m2.
